@@ -77,7 +77,7 @@ Lemma run_input_journal f now s i s1 p :
   InvT s -> run_input f now s i = Done s1 p -> map view (s_txs s1) = replay_payload (map view (s_txs s)) p.
 Proof.
   intros HI.
-  destruct i as [ps ts ref md amd force | id force at_eff | [a|id] md | [a|id] k]; simpl.
+  destruct i as [ps ts ref md amd force | id force at_eff rmeta | [a|id] md | [a|id] k]; simpl.
   - destruct ps as [|q ps']; [discriminate|].
     destruct (feasible force (s_vols s) (q :: ps')); simpl; [|discriminate].
     destruct (commit_transaction f now s (q :: ps') md ts ref) as [s0 [t|]] eqn:E; [|discriminate].
